@@ -33,10 +33,12 @@ MIN_EVALUATIONS = {'quick': 40, 'thorough': 1000}
 SHRINK_CHECKS = 25
 
 KINDS = ['drop', 'duplicate', 'swap', 'rename_model_arg', 'rename_field_arg', 'change_attr',
+         'spurious_attr', 'spurious_attr',
          'remove_initial', 'retarget_model', 'delete_pk', 'nonnull_type_change', 'none']
 # perturbations that produce exactly what the property says must be rejected
 MUST_REJECT = ('remove_initial:nonnull', 'delete_pk', 'duplicate:AddField', 'rename_model_arg:missing',
-               'rename_field_arg', 'nonnull_type_change')
+               'rename_field_arg', 'nonnull_type_change', 'spurious_attr:unique',
+               'spurious_attr:plain')
 
 
 FIELD_KINDS = ['AddField', 'DeleteField', 'ChangeField', 'RenameField']
@@ -163,6 +165,39 @@ def perturb(seq, spec0, p):
             return None, 'no field arg'
         m[key] = 'missing_field'
         return seq, k
+    if k == 'spurious_attr':
+        # an extra ChangeField(db_index=<flipped>) on a field of a model that the evolution
+        # changes anyway (so the mutation is looked at) but which the models do not declare:
+        # a residual difference remains; unique fields first (their db_index is easy to
+        # overlook)
+        try:
+            final = R.apply_all(copy.deepcopy(spec0), seq, strict=False)
+        except Exception:
+            return None, 'no final spec'
+        named = {(x.get('model'), x.get('name') or x.get('old') or
+                  (x.get('field') or {}).get('name')) for x in seq}
+        cands = []
+        for x in seq:
+            if not x.get('model') or x['kind'] in ('DeleteModel', 'RenameModel'):
+                continue
+            mm = S.get_model(final, x['app'], x['model'])
+            m0 = S.get_model(spec0, x['app'], x['model'])
+            if mm is None or m0 is None:
+                continue
+            for f in mm['fields']:
+                f0 = S.get_field(m0, f['name'])
+                if f0 is None or f['kind'] in S.REL_KINDS or (x['model'], f['name']) in named \
+                        or f['name'] in S.all_meta_refs(mm):
+                    continue
+                cands.append((0 if f['unique'] else 1, x['app'], x['model'], f))
+        if not cands:
+            return None, 'no untouched field'
+        cands.sort(key=lambda c: (c[0], c[2], c[3]['name']))
+        _u, app_, model_, f = cands[0]
+        seq.append({'kind': 'ChangeField', 'app': app_, 'model': model_, 'name': f['name'],
+                    'attrs': {'db_index': not f['db_index']}, 'field_kind': None,
+                    'initial': None})
+        return seq, k + (':unique' if f['unique'] else ':plain')
     if k == 'change_attr':
         if m['kind'] == 'AddField' and m['field']['kind'] == 'Char':
             m['field']['max_length'] = (m['field']['max_length'] or 10) + 7
